@@ -2,7 +2,8 @@
 Require Import VT.Tac VT.ListN VT.Utf8 VT.Width VT.Attrs VT.Cell VT.Row VT.Grid VT.Screen VT.Vte VT.Perform VT.Parser VT.Term VT.Emit.
 Require Import VT.RowInv VT.GridInv VT.TextInv VT.ScreenInv VT.ParseSer VT.CellWf VT.WfInv VT.WrapInv VT.WrapInvScreen VT.SgrSpec VT.EmitSafe VT.ObsSpec.
 Require Import VT.CellInv VT.Recv VT.RowPaint VT.Redraw VT.Cursor VT.C01Main VT.C15Main VT.CapInv VT.Idem VT.LastRow VT.C01Examples.
-Require Import VT.Props.C15.
+Require Import VT.Tac VT.ListN VT.Utf8 VT.Width VT.Attrs VT.Cell VT.Row VT.Grid VT.Screen VT.Vte VT.Perform VT.Term VT.Emit VT.RowInv VT.GridInv VT.TextInv VT.ScreenInv VT.ParseSer VT.CellWf VT.WfGrid VT.WfVte VT.WfInv VT.EraseSpec VT.SgrSpec VT.MoveSpec VT.PrintSpec VT.CellBytes VT.EmitSafe VT.WrapInv VT.WrapInvScreen VT.ObsSpec VT.Recv VT.RowPaint VT.Redraw VT.Cursor VT.C01Main VT.C15Main VT.DiffPaint VT.DiffGrid VT.DiffMain VT.DiffWindow.
+Require Import VT.Props.C15 VT.Props.C15diff.
 Open Scope N_scope.
 Check C15_window_protocol_def : forall start i toks,
   window_protocol start i toks =
@@ -67,3 +68,51 @@ Check C15_full_reachable_obs : forall rows cols cap rz ops p q cap' rz' r toks c
   exists R', play false (scr r) (full_protocol (scr q) (live (cur (scr q))) toks ctoks) = Ok (R', []) /\ canvas R' /\
              obs R' = obs (scr q).
 Print Assumptions C15_full_reachable_obs.
+Check C15diff_lalign_def : forall start r, lalign start r <-> fc (cells r) start = false.
+Print Assumptions C15diff_lalign_def.
+Check C15diff_win_done_def : forall start width ri src prev, win_done start width ri src prev <->
+  (wrapped ri = false /\
+   (forall k, k < start -> get (cells ri) k = get (cells prev) k) /\
+   (forall k, start <= k < start + width -> get (cells ri) k = get (cells src) k)).
+Print Assumptions C15diff_win_done_def.
+Check C15diff_window_row : forall R l i src prev start width,
+  cv R l i start -> srow_ok (gcols (g R)) src -> srow_ok (gcols (g R)) prev ->
+  start < gcols (g R) -> 1 <= width -> start + width <= gcols (g R) ->
+  lalign start src -> lalign start prev ->
+  get l i = Some prev -> wrapped src = false -> wrapped prev = false ->
+  exists ts r' c' a' ri,
+    row_diff src prev start width i false false (i, start) dflt = Ok (ts, (r', c'), a') /\
+    plays (rcv R l i start dflt) ts (rcv R (set_at l i ri) r' c' a') /\
+    cv R (set_at l i ri) r' c' /\ pen_ok a' /\ win_done start width ri src prev.
+Print Assumptions C15diff_window_row.
+Check C15diff_window : forall S P R vr pvr start width toks,
+  source_ok S vr -> source_ok P pvr -> unwrapped_rows vr -> unwrapped_rows pvr ->
+  grows (cur S) = grows (cur P) -> gcols (cur S) = gcols (cur P) ->
+  canvas R -> grows (g R) = grows (cur P) -> gcols (g R) = gcols (cur P) -> live (g R) = pvr ->
+  start < gcols (cur S) -> 1 <= width -> start + width <= gcols (cur S) ->
+  Forall (lalign start) vr -> Forall (lalign start) pvr ->
+  rows_diff_t S P start width = Ok toks ->
+  exists R', play false R (window_protocol start 0 toks) = Ok (R', []) /\ canvas R' /\
+    grows (g R') = grows (g R) /\ gcols (g R') = gcols (g R) /\
+    forall i, i < grows (cur S) -> exists ri src prev,
+      get (live (g R')) i = Some ri /\ get vr i = Some src /\ get pvr i = Some prev /\
+      win_done start width ri src prev.
+Print Assumptions C15diff_window.
+Check C15diff_full : forall S P R vr pvr toks,
+  source_ok S vr -> source_ok P pvr -> unwrapped_rows vr -> unwrapped_rows pvr ->
+  grows (cur S) = grows (cur P) -> gcols (cur S) = gcols (cur P) ->
+  canvas R -> grows (g R) = grows (cur P) -> gcols (g R) = gcols (cur P) -> live (g R) = pvr ->
+  rows_diff_t S P 0 (gcols (cur S)) = Ok toks ->
+  exists R', play false R (window_protocol 0 0 toks) = Ok (R', []) /\ canvas R' /\ live (g R') = vr.
+Print Assumptions C15diff_full.
+Check C15diff_row_diff_window : forall R i src prev start l0 ri0 r0 c0 a0,
+  i < grows (g R) -> srow_ok (gcols (g R)) src -> srow_ok (gcols (g R)) prev ->
+  start < gcols (g R) -> fc (cells src) start = false -> fc (cells prev) start = false ->
+  cv R l0 r0 c0 -> pen_ok a0 -> get l0 i = Some ri0 -> cells ri0 = cells prev -> wrapped ri0 = false ->
+  forall width, 1 <= width -> start + width <= gcols (g R) -> wrapped src = wrapped prev ->
+  exists ts r' c' a' ri,
+    row_diff src prev start width i false false (r0, c0) a0 = Ok (ts, (r', c'), a') /\
+    plays (rcv R l0 r0 c0 a0) ts (rcv R (set_at l0 i ri) r' c' a') /\
+    cv R (set_at l0 i ri) r' c' /\ pen_ok a' /\
+    dpainted src prev start ri (start + width).
+Print Assumptions C15diff_row_diff_window.
